@@ -182,6 +182,9 @@ CHARS = ['a', 'b', '.', '0', ',', ']', '}', '"', '\\', '/', '\n', '\t', '\x00', 
 _PAIR = re.compile('[\ud800-\udbff][\udc00-\udfff]')
 
 
+# strings that LOOK like another JSON-writable type (what the serialiser writes for a datetime, a date, a number, a literal)
+TYPELIKE = ['2024-03-10T02:30:00-08:00', '2024-03-10T02:30:00.123+00:00', '2020-01-01T00:00:00Z', '2020-01-01', '2021-12-31T23:59:59.999+05:45', '1970-01-01T00:00:00+00:00',
+            'true', 'false', 'null', '[]', '{}', '"quoted"', '12', '-0.5', '/Date(0)/', '<function>', '<regex>']
 NUMLIKE = ['1e-07', '1e-05', '1e-5', '2.50', '1.0', '-0', '1E+3', '1.0e+20', '0.0', 'tolerance 1e-07 x', '3.0,', '[1.0]', '{"a":1.0}', '1.50e-03', 'null', 'true',
            '5" pipe', 'a\\"b', '\\', '"', 'x.0"', '".0,']
 
@@ -189,6 +192,8 @@ NUMLIKE = ['1e-07', '1e-05', '1e-5', '2.50', '1.0', '-0', '1E+3', '1.0e+20', '0.
 def rand_string(rnd):
     if rnd.random() < 0.15:
         return rnd.choice(NUMLIKE)
+    if rnd.random() < 0.06:
+        return rnd.choice(TYPELIKE)
     s = ''.join(rnd.choice(CHARS) for _ in range(rnd.randint(0, 7)))
     # a lone high surrogate directly followed by a lone low one IS a non-BMP character in JSON (UTF-16): not a distinct value
     while _PAIR.search(s):
@@ -233,6 +238,15 @@ def run_random(spec, acc, api):
         v = rand_value(rnd, rnd.randint(0, 5))
         indent = rnd.choice([None, None, 1, 2, 3, 4, 8, 5, 6, 7])
         check_value(v, indent, acc, api, table, True)
+        if i % 6 == 0:
+            # values are graphs in the host: the SAME array / object may be a member twice (shared, not cyclic) - it is written twice
+            shared = rand_value(rnd, rnd.randint(1, 3))
+            if not isinstance(shared, (list, dict)):
+                shared = [shared]
+            inner = {'p': shared, 'q': [shared, rand_value(rnd, 1)]}
+            v2 = rnd.choice([[shared, shared], {'first': shared, 'last': shared}, [inner, shared, inner], {'a': [shared], 'b': {'c': shared}}, [[], []], [{}, {}, []]])
+            check_value(v2, indent, acc, api, table, True)
+            acc.count('shared_member_values')
         if len(acc.samples) < 2 and isinstance(v, dict) and len(v) >= 2:
             acc.sample({'value': refval.canon(v), 'indent': indent})
 
